@@ -1,6 +1,7 @@
 package main
 
 import (
+	"encoding/hex"
 	"errors"
 	"fmt"
 	"io"
@@ -296,6 +297,12 @@ func buildVal(v *Val) interface{} {
 		return nil
 	case "str":
 		return v.S
+	case "strx":
+		b, err := hex.DecodeString(v.S)
+		if err != nil {
+			return v.S
+		}
+		return string(b)
 	case "int":
 		return v.I
 	case "bool":
